@@ -2,6 +2,7 @@ CONSTANTS
   MaxCols = 3
   NKeys = 2
   NVals = 2
+  MinCols = 1
   GenLen = 16
 SPECIFICATION GenSpec
 INVARIANTS TypeOK EmitTrace
